@@ -167,12 +167,20 @@ func TestVerifBounded_C12_DynamicLimit(t *testing.T) {
 	if err != nil {
 		t.Fatal(err)
 	}
+	// a dynamic limit that yields no filter for the table adds nothing - and takes nothing away from the shard limit
+	bothNil, err := base.WithDynamicLimit(DynamicLimit{
+		GetLimitFilter:        func(ctx context.Context, table string) Filter { return nil },
+		ShouldContinueOnError: func(err error, table string) bool { return false },
+	})
+	if err != nil {
+		t.Fatal(err)
+	}
 	evals, distinct, failures := 0, 0, 0
 	for _, h := range []struct {
 		name string
 		db   *DB
 		tx   bool
-	}{{"dynamic limit", dyn, false}, {"shard limit and dynamic limit", both, false}, {"shard limit, inside a transaction", base, true}, {"dynamic limit, inside a transaction", dyn, true}} {
+	}{{"dynamic limit", dyn, false}, {"shard limit and dynamic limit", both, false}, {"shard limit and a dynamic limit that yields no filter", bothNil, false}, {"shard limit, inside a transaction", base, true}, {"dynamic limit, inside a transaction", dyn, true}} {
 		ctx := context.Background()
 		if h.tx {
 			txctx, tx, err := h.db.WithTx(ctx)
